@@ -1057,14 +1057,19 @@ class PolarsModel(data_algebra.data_model.DataModel):
                 how=how,
                 suffix="_da_right_tmp",
             )
+            joined_columns = set(
+                res.collect_schema().names()
+                if hasattr(res, "collect_schema")
+                else res.columns
+            )
+            # Polars drops the right table's key columns of inner / left joins: a shared column that is
+            # a key on the right has no twin to fill from (and needs none, its left value is never missing)
+            coalesce_columns = set(
+                [c for c in coalesce_columns if (c + "_da_right_tmp") in joined_columns]
+            )
             if how == "outer":
                 # newer Polars keeps the right table's key columns apart in a full join (suffixed):
                 # fold them into the key like any shared column, or right-only rows have no key
-                joined_columns = set(
-                    res.collect_schema().names()
-                    if hasattr(res, "collect_schema")
-                    else res.columns
-                )
                 coalesce_columns = coalesce_columns.union(
                     [
                         ka
@@ -1101,6 +1106,14 @@ class PolarsModel(data_algebra.data_model.DataModel):
                 right_on=op.on_a,
                 how="left",
                 suffix="_da_left_tmp",
+            )
+            joined_columns = set(
+                res.collect_schema().names()
+                if hasattr(res, "collect_schema")
+                else res.columns
+            )
+            coalesce_columns = set(
+                [c for c in coalesce_columns if (c + "_da_left_tmp") in joined_columns]
             )
             if len(coalesce_columns) > 0:
                 res = res.with_columns(
